@@ -1573,7 +1573,7 @@ int ov_pcm_seek_page(OggVorbis_File *vf,ogg_int64_t pos){
 
         vf->pcm_offset=total;
 
-        if(link!=vf->current_link){
+        if(link!=vf->current_link || vf->ready_state<STREAMSET){
           /* Different link; dump entire decode machine */
           _decode_clear(vf);
 
@@ -1606,7 +1606,7 @@ int ov_pcm_seek_page(OggVorbis_File *vf,ogg_int64_t pos){
       result=_get_next_page(vf,&og,-1);
       if(result<0) goto seek_error;
 
-      if(link!=vf->current_link){
+      if(link!=vf->current_link || vf->ready_state<STREAMSET){
         /* Different link; dump entire decode machine */
         _decode_clear(vf);
 
